@@ -24,7 +24,8 @@ import numpy as np
 from vf import core
 from vf.core import fs
 
-RULE = ('operator zoo: every linear class with .adjoint found by introspection x its option '
+RULE = ('operator zoo: every module-level linear class with .adjoint found by introspection (plus '
+        'the derivative classes defined inside methods of ComplexModulus(Squared)/PointwiseNorm) x its option '
         'sets (weightings none/const/array, real/complex dtype, axes, variants, pad modes, '
         'resize modes, product-space weightings) on spaces with <= 12 entries, plus random '
         'linear expression trees (sum, composition, scalar and vector multiples, block '
@@ -48,6 +49,19 @@ ASSUMPTIONS = ['floating point rounding is outside the model: all matrix entries
                'returns the bare operator / a scalar multiple / a vector multiple depending on the '
                'weighting class: same action, compared through the matrices',
                'near-equal weights (np.isclose fudge in PointwiseInnerAdjoint) are not generated',
+               'the oracle demands the REAL-PART identity (which determines A* uniquely); for a '
+               'complex-linear A between complex spaces this is equivalent to the full complex '
+               'identity, for an A that is only real-linear (trees through RealPart/ImagPart/'
+               'ComplexEmbedding) the full complex identity cannot hold and is not demanded '
+               '(non complex-linear A / A* are recorded as information only)',
+               'for FourierTransform, DiscreteFourierTransform and (db2, non-periodized) wavelet '
+               'transforms the adjoint identity fails on the unchanged code (open findings F57-F59); '
+               'the check only establishes that the returned adjoint is exactly the (scaled) inverse '
+               '- any other deviation is a violation - so it gives no further information about '
+               'the adjoint identity of these classes',
+               'block operators: ProductSpaceOperator refuses weighted product spaces, so the model '
+               'and the theorems cover unweighted product spaces (arbitrary weights inside the '
+               'components) only',
                'documented-approximate adjoints are exempt: Resampling, RayTransform, LinDeform*']
 KNOWN_EXPLAINS_DISAGREEMENT = False
 
@@ -282,11 +296,29 @@ def oracle(A, approx=False):
     info['inexact'] = inexact
     if bad:
         a, b, lhs, rhs = bad[0]
-        # is A* wrong only by ONE common factor (lhs = c * rhs for every basis pair)?  Then the
-        # failure is reported under its own kind, so that a finding of this specific shape
-        # (e.g. the missing factor N of the DFT) cannot mask any other defect of the class
+        # Signature of the failure, so that a recorded finding of one specific shape cannot
+        # mask any other defect of the same class:
+        #   adjoint-is-inverse         A*(A x) = x for all x (the code returned the inverse)
+        #   adjoint-is-scaled-inverse  A*(A x) = c x
+        #   adjoint-is-plain-transpose A* is the transpose for UNWEIGHTED pairings (weights ignored)
+        #   common-factor              <Ax,y> = c <x,A*y> for one constant c
         kind = 'identity'
-        if len(bad) > 1 and float(rhs) != 0:
+        FA = np.array([[float(v) for v in col] for col in MA]).T if nd else np.zeros((nr, 0))
+        FB = np.array([[float(v) for v in col] for col in MB]).T if nr else np.zeros((nd, 0))
+        eps = 1e-9 * scale
+        if FA.shape == (nr, nd) and FB.shape == (nd, nr):
+            BA = FB.dot(FA)
+            c0 = BA[0, 0] if nd else 0.0
+            AB = FA.dot(FB)
+            if (nd and np.all(np.abs(BA - np.eye(nd)) <= eps)) or \
+                    (nr and np.all(np.abs(AB - np.eye(nr)) <= eps)):
+                # left or right inverse (the transforms need not be square)
+                kind = 'identity-adjoint-is-inverse'
+            elif nd and c0 != 0 and np.all(np.abs(BA - c0 * np.eye(nd)) <= eps * max(1, abs(c0))):
+                kind = 'identity-adjoint-is-scaled-inverse'
+            elif np.all(np.abs(FB - FA.T) <= eps):
+                kind = 'identity-adjoint-is-plain-transpose'
+        if kind == 'identity' and len(bad) > 1 and float(rhs) != 0:
             c = float(lhs) / float(rhs)
             uni = all(abs(float(MA[i][j] * Gr[j]) - c * float(Gd[i] * MB[j][i])) <=
                       1e-9 * scale for i in range(nd) for j in range(nr))
@@ -472,6 +504,10 @@ def zoo_cases(ctx, rng=None):
         yield mk('MultiplyOperator', 'space={} by=scalar'.format(sp_sig(S)),
                  lambda S=S, s0=s0: odl.MultiplyOperator(s0, domain=S, range=S),
                  None)
+        if not is_discr(S) and wkind(S) == 'none':
+            S2 = type(S)(S.shape, dtype=S.dtype, weighting=2.0)
+            yield mk('MultiplyOperator', 'space={} by=scalar range=other-weighting'.format(sp_sig(S)),
+                     lambda S=S, S2=S2, s0=s0: odl.MultiplyOperator(s0, domain=S, range=S2), None)
         yield mk('InnerProductOperator', 'space={}'.format(sp_sig(S)),
                  lambda v=v: odl.InnerProductOperator(v), ('inner', S, v))
         yield mk('RealPart', 'space={}'.format(sp_sig(S)), lambda S=S: odl.RealPart(S),
@@ -518,6 +554,8 @@ def zoo_cases(ctx, rng=None):
     for c in functional_cases(ctx, rng, mk):
         yield c
     for c in expr_cases(ctx, rng, mk):
+        yield c
+    for c in hidden_cases(ctx, rng, mk):
         yield c
 
 
@@ -587,6 +625,14 @@ def matrix_cases(ctx, rng, mk):
         domd = odl.uniform_discr([0, 0], [1, 3], (2, 3))
         yield mk('MatrixOperator', 'domw=discr ndim=2 axis={}'.format(axis),
                  lambda M=M, domd=domd, axis=axis: odl.MatrixOperator(M, domain=domd, axis=axis))
+    M = rand_mat(rng, 2, 3)
+
+    def _custom():
+        return odl.rn(3, inner=lambda x, y: 2.0 * float(np.vdot(y.data, x.data)))
+    yield mk('MatrixOperator', 'domw=custom ranw=none explicit-range shape=2x3',
+             lambda M=M: odl.MatrixOperator(M, domain=_custom(), range=odl.rn(2)))
+    yield mk('MatrixOperator', 'domw=custom ranw=default shape=2x3',
+             lambda M=M: odl.MatrixOperator(M, domain=_custom()))
     M = rand_mat(rng, 2, 2)
     yield mk('MatrixOperator', 'domw=array ndim=2 axis=0',
              lambda M=M: odl.MatrixOperator(M, domain=odl.rn((2, 3), weighting=np.array(
@@ -764,7 +810,7 @@ def pspace_cases(ctx, rng, mk):
     yield mk('ReductionOperator', 'heterogeneous domains',
              lambda: odl.ReductionOperator(odl.MatrixOperator(M), odl.IdentityOperator(r2)))
     yield mk('DiagonalOperator', 'heterogeneous',
-             lambda: odl.DiagonalOperator(odl.MatrixOperator(M), odl.ScalingOperator(c2, 1j)))
+             lambda: odl.DiagonalOperator(odl.MatrixOperator(M), odl.ScalingOperator(r2w, 2.0)))
     yield mk('BroadcastOperator', 'repeat syntax', lambda: odl.BroadcastOperator(
         odl.ScalingOperator(r3, 2.0), 2))
 
@@ -871,17 +917,17 @@ def trafo_cases(ctx, rng, mk):
     w8 = odl.uniform_discr(0, 8, 8)
     w4x4 = odl.uniform_discr([0, 0], [4, 4], (4, 4))
     for wav in ('haar', 'db2'):
-        for pad in ('pywt_per', 'periodic', 'constant', 'symmetric'):
+        for pad in ('pywt_periodic', 'periodic', 'constant', 'symmetric'):
             yield mk('WaveletTransform', 'dom=discr8 wavelet={} pad={} nlevels=1'.format(wav, pad),
                      lambda wav=wav, pad=pad: tr.WaveletTransform(w8, wav, nlevels=1, pad_mode=pad),
                      approx=True)
             yield mk('WaveletTransformInverse', 'ran=discr8 wavelet={} pad={} nlevels=1'.format(wav, pad),
                      lambda wav=wav, pad=pad: tr.WaveletTransform(w8, wav, nlevels=1, pad_mode=pad).inverse,
                      approx=True)
-    yield mk('WaveletTransform', 'dom=discr8 wavelet=haar pad=pywt_per nlevels=2',
-             lambda: tr.WaveletTransform(w8, 'haar', nlevels=2, pad_mode='pywt_per'), approx=True)
-    yield mk('WaveletTransform', 'dom=discr4x4 wavelet=haar pad=pywt_per nlevels=1',
-             lambda: tr.WaveletTransform(w4x4, 'haar', nlevels=1, pad_mode='pywt_per'), approx=True)
+    yield mk('WaveletTransform', 'dom=discr8 wavelet=haar pad=pywt_periodic nlevels=2',
+             lambda: tr.WaveletTransform(w8, 'haar', nlevels=2, pad_mode='pywt_periodic'), approx=True)
+    yield mk('WaveletTransform', 'dom=discr4x4 wavelet=haar pad=pywt_periodic nlevels=1',
+             lambda: tr.WaveletTransform(w4x4, 'haar', nlevels=1, pad_mode='pywt_periodic'), approx=True)
 
 
 def functional_cases(ctx, rng, mk):
@@ -938,12 +984,45 @@ def expr_cases(ctx, rng, mk):
                      lambda A=A, v=v_ran: opm.OperatorLeftVectorMult(A, v), ('lvec', sA, v_ran, ran))
             yield mk('OperatorRightVectorMult', pre + ' vector={}'.format('cplx' if is_cplx(dom) else 'real'),
                      lambda A=A, v=v_dom: opm.OperatorRightVectorMult(A, v), ('rvec', sA, v_dom, dom))
-            scalars = [('real', -0.5)] + ([('cplx', 1 + 2j)] if cfg == 'cc' else [])
-            for sn, sc in scalars:
+            for sn, sc in [('real', -0.5)] + ([('cplx', 1 + 2j)] if is_cplx(ran) else []):
                 yield mk('OperatorLeftScalarMult', pre + ' scalar=' + sn,
                          lambda A=A, sc=sc: opm.OperatorLeftScalarMult(A, sc), ('lsc', sA, sc))
+            for sn, sc in [('real', -0.5)] + ([('cplx', 1 + 2j)] if is_cplx(dom) else []):
                 yield mk('OperatorRightScalarMult', pre + ' scalar=' + sn,
                          lambda A=A, sc=sc: opm.OperatorRightScalarMult(A, sc), ('rsc', sA, sc))
+            if cfg == 'rr' and tag == 'T':
+                # a NON-LINEAR operand anywhere: `.adjoint` must raise (model: adj = none)
+                N, sN = odl.PowerOperator(R, 2), ('nonlin', R, R)
+                vv = rand_el(rng, R, nz=True)
+                for nm, f, sp_ in (
+                        ('OperatorSum', lambda: opm.OperatorSum(A, N), ('sum', sA, sN)),
+                        ('OperatorComp', lambda: opm.OperatorComp(N, A), ('comp', sN, sA)),
+                        ('OperatorComp', lambda: opm.OperatorComp(A, N), ('comp', sA, sN)),
+                        ('OperatorLeftScalarMult', lambda: opm.OperatorLeftScalarMult(N, 2.0),
+                         ('lsc', sN, 2.0)),
+                        ('OperatorRightScalarMult', lambda: opm.OperatorRightScalarMult(N, 2.0),
+                         ('rsc', sN, 2.0)),
+                        ('OperatorLeftVectorMult', lambda: opm.OperatorLeftVectorMult(N, vv),
+                         ('lvec', sN, vv, R)),
+                        ('OperatorRightVectorMult', lambda: opm.OperatorRightVectorMult(N, vv),
+                         ('rvec', sN, vv, R)),
+                        ('BroadcastOperator', lambda: odl.BroadcastOperator(A, N),
+                         ('blocks', 'bcast', R, odl.ProductSpace(R, 2), [(0, 0, sA), (1, 0, sN)]))):
+                    yield mk(nm, pre + ' nonlinear-operand#{}'.format(tree_shape(sp_)), f, sp_)
+            if cfg == 'cc':
+                # complex -> complex but only REAL-linear operand (embedding o real part) under
+                # genuinely complex scalar multiples, and through the operator arithmetic
+                E = opm.OperatorComp(odl.ComplexEmbedding(R, 1 + 1j), odl.RealPart(C))
+                sE = ('comp', ('cembed', R, 1 + 1j), ('realpart', C))
+                yield mk('OperatorLeftScalarMult', pre + ' operand=real-linear-only scalar=cplx',
+                         lambda E=E: opm.OperatorLeftScalarMult(E, 2j), ('lsc', sE, 2j))
+                yield mk('OperatorRightScalarMult', pre + ' operand=real-linear-only scalar=cplx',
+                         lambda E=E: opm.OperatorRightScalarMult(E, 1 + 2j), ('rsc', sE, 1 + 2j))
+                yield mk('OperatorLeftScalarMult', pre + ' operand=real-linear-only via s*A',
+                         lambda E=E: 2j * E, ('lsc', sE, 2j))
+                yield mk('OperatorRightScalarMult', pre + ' operand=RealPart scalar=cplx',
+                         lambda C=C: opm.OperatorRightScalarMult(odl.RealPart(C), 2j),
+                         ('rsc', ('realpart', C), 2j))
             B, sB = operand(cfg, R, C)
             yield mk('OperatorSum', pre, lambda A=A, B=B: opm.OperatorSum(A, B), ('sum', sA, sB))
             for cfg2 in ('rr', 'cc', 'rc', 'cr'):
@@ -959,6 +1038,28 @@ def expr_cases(ctx, rng, mk):
                      lambda A=A, w=w, u=u: opm.FunctionalLeftVectorMult(
                          opm.OperatorComp(odl.InnerProductOperator(w), A), u),
                      ('flv', ('comp', ('inner', ran, w), sA), u, ran))
+
+
+def hidden_cases(ctx, rng, mk):
+    """linear operators with an adjoint whose classes are defined inside methods (invisible
+    to the introspection of the namespaces): derivatives of ComplexModulus(Squared) and of
+    PointwiseNorm, and their adjoint classes"""
+    odl = odl_()
+    for tag, C in (('cn3', odl.cn(3)), ('cn2/array', odl.cn(2, weighting=[2.0, 0.5])),
+                   ('cdiscr3', odl.uniform_discr(0, 1.5, 3, dtype='complex128'))):
+        pt = from_flat(C, np.array([3 + 4j, -4 + 3j, 5j][:sdim(C)]))  # |.| = 5: dyadic ratios
+        yield mk('ComplexModulusSquaredDerivative', 'space=' + tag,
+                 lambda C=C, pt=pt: odl.ComplexModulusSquared(C).derivative(pt))
+        yield mk('ComplexModulusSquaredDerivativeAdjoint', 'space=' + tag,
+                 lambda C=C, pt=pt: odl.ComplexModulusSquared(C).derivative(pt).adjoint)
+        yield mk('ComplexModulusDerivative', 'space=' + tag,
+                 lambda C=C, pt=pt: odl.ComplexModulus(C).derivative(pt), approx=True)
+        yield mk('ComplexModulusDerivativeAdjoint', 'space=' + tag,
+                 lambda C=C, pt=pt: odl.ComplexModulus(C).derivative(pt).adjoint, approx=True)
+    V = odl.ProductSpace(odl.rn(2), 2)
+    pt = V.element([[3.0, -4.0], [4.0, 3.0]])
+    yield mk('PointwiseNormDerivative', 'base=rn2 d=2',
+             lambda: odl.PointwiseNorm(V).derivative(pt), approx=True)
 
 
 def introspect():
@@ -1013,7 +1114,11 @@ def comp_sizes(S):
 
 
 def space_sig(S):
-    return ('c:' if is_cplx(S) else 'r:') + (','.join(str(n) for n in comp_sizes(S)) or '-')
+    """field flag, component sizes and the weight of every entry (as the driver prints it)"""
+    g = gram(S)
+    w = g[::2] if is_cplx(S) else g
+    return ('c:' if is_cplx(S) else 'r:') + (','.join(str(n) for n in comp_sizes(S)) or '-') + \
+        ':w=' + (','.join(fs(t) for t in w) or '-')
 
 
 class TB(object):
@@ -1062,6 +1167,18 @@ def emit(tb, spec):
         t.append('zero;{};{}'.format(tb.sp(spec[1]), tb.sp(spec[2])))
     elif k == 'nonlin':
         t.append('nonlin;{};{}'.format(tb.sp(spec[1]), tb.sp(spec[2])))
+    elif k == 'opaque':
+        # unmodelled operator: forward and adjoint matrices are taken from the real code
+        _, op, D, R = spec
+        if is_cplx(D) or is_cplx(R) or is_pspace(D) or is_pspace(R) or is_field(D) or is_field(R):
+            raise NotModelled('opaque leaf on complex / product spaces')
+        MA = matrix_of(op, D, R)
+        MB = matrix_of(op.adjoint, R, D)
+
+        def rows(cols, nrows):
+            return '~'.join(','.join(fs(cols[k][i]) for k in range(len(cols)))
+                            for i in range(nrows)) or '-'
+        t.append('opq;0;{};{};{};{}'.format(tb.sp(D), tb.sp(R), rows(MA, sdim(R)), rows(MB, sdim(D))))
     elif k == 'multiply':
         _, D, R, v = spec
         t.append('mul;{};{};{}'.format(tb.sp(D), tb.sp(R), cvec(D, v)))
@@ -1200,7 +1317,7 @@ def compare_model(ctx, desc, A, status, info, ans):
         ctx.disagree(desc, status, ans[:300])
         return
     dom, ran = A.domain, A.range
-    if 'A' in info and 'A' in fields:
+    if 'A' in info and 'A' in fields and not desc.get('nonlin'):
         if parse_cols(fields['A'], is_cplx(ran)) != info['A']:
             ctx.disagree(desc, 'matrix of A = {}'.format(_mstr(info['A'])),
                          'matrix of run t = {}'.format(fields['A'][:400]))
@@ -1297,6 +1414,14 @@ def gen_tree(rng, sps, dom, ran, depth, allow_cplx_scalar=True):
         return rng.choice([2.0, -1.0, 0.5, -0.25, 3.0])
 
     def leaf():
+        if dom == ran and not cd and rng.random() < 0.04:
+            # non-linear operand: `.adjoint` of every tree containing it must raise
+            return odl.PowerOperator(dom, 2), ('nonlin', dom, dom), False
+        if dom == ran and is_discr(dom) and not cd and rng.random() < 0.5:
+            # opaque operand (no executable model): finite difference with an adjoint
+            op = odl.PartialDerivative(dom, 0, method=rng.choice(['forward', 'backward', 'central']),
+                                       pad_mode=rng.choice(['constant', 'symmetric']))
+            return op, ('opaque', op, dom, dom), False
         if dom == ran:
             k = rng.randint(0, 3)
             if k == 0:
@@ -1350,7 +1475,9 @@ def gen_tree(rng, sps, dom, ran, depth, allow_cplx_scalar=True):
         return opm.OperatorComp(a, b), ('comp', sa, sb), ma or mb
     if k in ('lsc', 'rsc'):
         a, sa, ma = gen_tree(rng, sps, dom, ran, depth - 1)
-        s = scalar(cd and cr and not ma)
+        # whatever the constructors admit: `scalar in range.field` (left) / `domain.field`
+        # (right) — also genuinely complex scalars on operands that are only real-linear
+        s = scalar(cr if k == 'lsc' else cd)
         if k == 'lsc':
             return opm.OperatorLeftScalarMult(a, s), ('lsc', sa, s), ma
         return opm.OperatorRightScalarMult(a, s), ('rsc', sa, s), ma
@@ -1450,7 +1577,15 @@ def eval_case(ctx, key, A, spec, approx, replay_case, batch, count=True):
             type(e).__name__, str(e)[:200]))], {}
     if status != 'ok':
         ctx.err(status)
+        exp = _expected(key, EXPECT_NOADJ)
+        if key.startswith('class=') and exp != status:
+            problems = problems + [('no-adjoint', 'A.is_linear = {} and `.adjoint` {} (expected {})'
+                                    .format(getattr(A, 'is_linear', '?'), status,
+                                            exp or 'an adjoint operator'))]
     else:
+        if key.startswith('class=') and _expected(key, EXPECT_NOADJ):
+            problems = problems + [('no-adjoint', 'an adjoint is returned where {} was expected'
+                                    .format(_expected(key, EXPECT_NOADJ)))]
         try:
             B = A.adjoint
             info['adjsig'] = (space_sig(B.domain), space_sig(B.range))
@@ -1497,6 +1632,26 @@ def _known():
     return _KNOWN[0]
 
 
+# Cases of the zoo that are EXPECTED not to construct / not to return an adjoint (documented
+# behaviour).  Anything else that raises is reported: an exception from the real code never
+# silently skips a case.
+EXPECT_CONSTRUCT_FAIL = [r'^class=Laplacian opts=space=\S+ pad=order[12](_adjoint)?$']
+EXPECT_NOADJ = {
+    r'^class=ConstantOperator opts=zero constant$': 'noadjoint:None',
+    r'^class=ZeroFunctional opts=space=rT1$': 'noadjoint:OpNotImplementedError',
+    r'^class=MatrixOperator opts=domw=none shape=2x3 dtype=complex dom=real$': 'noadjoint:ValueError',
+    r'^class=\w+ opts=operand=rr/T nonlinear-operand#\S+$': 'noadjoint:OpNotImplementedError',
+}
+
+
+def _expected(key, table):
+    import re
+    for pat in table:
+        if re.search(pat, key):
+            return table[pat] if isinstance(table, dict) else True
+    return None
+
+
 def fill_spec(spec, A):
     if spec is None:
         return None
@@ -1521,6 +1676,12 @@ def run_zoo(ctx, zseed, batch, only_key=None, count=True):
         except Exception as e:  # noqa
             ctx.err('construct:' + type(e).__name__)
             classes.setdefault(c.cls, [0, 0])[1] += 1
+            if not _expected(key, EXPECT_CONSTRUCT_FAIL):
+                ctx.violation(key + ' fail=construct-raises',
+                              'constructing the operator raised {}: {}'.format(
+                                  type(e).__name__, str(e)[:200]),
+                              {'kind': 'zoo', 'key': key, 'zseed': zseed, 'tier': ctx.tier,
+                               'fail': 'construct-raises'})
             continue
         classes.setdefault(c.cls, [0, 0])[0] += 1
         if count:
@@ -1577,7 +1738,7 @@ def flush(ctx, batch):
             ctx.hit('model/' + b)
         br = spec_branches(spec)
         compare_model(ctx, {'case': key, 'line': line[:1500],
-                            'mixed': bool(br & {'realpart', 'imagpart', 'cembed'})},
+                            'nonlin': 'nonlin' in br},
                       A, status, info, ans)
     del batch[:]
 
@@ -1613,7 +1774,8 @@ def run(ctx):
     expected = {'scaling', 'zero', 'multiply', 'multfield', 'inner', 'realpart', 'imagpart',
                 'cembed', 'matrix', 'pwinner', 'pwinneradj', 'sampling', 'wsum', 'flatten',
                 'flatteninv', 'proj', 'projadj', 'sum', 'comp', 'lsc', 'rsc', 'lvec', 'rvec',
-                'flv', 'blocks/pso', 'blocks/bcast', 'blocks/red', 'blocks/diag'}
+                'flv', 'blocks/pso', 'blocks/bcast', 'blocks/red', 'blocks/diag', 'nonlin',
+                'opaque'}
     unhit = sorted(b for b in expected if 'model/' + b not in ctx.branches)
     ctx.extra['unhit_model_branches'] = unhit
     if unhit and not ctx.quick:
